@@ -249,6 +249,28 @@ EXPECTED_DROPS_PATH = os.path.join(ROOT, 'expected_drops.json')
 EXPECTED_DROPS = set(json.load(open(EXPECTED_DROPS_PATH))) if os.path.exists(EXPECTED_DROPS_PATH) else set()
 
 
+BASELINE_SHAPES_PATH = os.path.join(ROOT, 'baseline_shapes.json')
+BASELINE_SHAPES = json.load(open(BASELINE_SHAPES_PATH)) if os.path.exists(BASELINE_SHAPES_PATH) else {}
+VSTD_SPECIFIED = set(open(os.path.join(ROOT, 'vf', 'vstd_specified.txt')).read().split()) if os.path.exists(os.path.join(ROOT, 'vf', 'vstd_specified.txt')) else set()
+
+
+def new_constructs(ur, rec):
+    """constructs in the CURRENT source text of an extracted function that the verifier has no semantics for and that the text the contracts were
+    written for (baseline_shapes.json, recorded on the unchanged tree) did not have: a call of a name that neither this unit defines or specifies
+    nor vstd specifies, or an additional closure expression (a closure's body is invisible at its call sites unless a `closure` directive
+    annotates it). Verus ACCEPTS several unspecified std functions (e.g. the provided methods of Iterator) and simply knows nothing about their
+    results; a proof that fails then says nothing about the code."""
+    base = BASELINE_SHAPES.get(ur.unit, {}).get(rec.selector)
+    if base is None:
+        return []
+    defined = set(re.findall(r'\bfn\s+(\w+)', ur.text)) | set(re.findall(r'assume_specification[^\[]*\[[^\]]*?(\w+)\s*\]', ur.text))
+    out = ['call of `%s` (no specification in this unit or in vstd)' % c for c in rec.callees
+           if c not in base['callees'] and c not in defined and c not in VSTD_SPECIFIED]
+    if rec.n_closures > base['closures']:
+        out.append('%d closure expression(s) more than the text the contracts were written for' % (rec.n_closures - base['closures']))
+    return out
+
+
 def drop_fn(msg):
     """function a dropped-directive message belongs to (messages start with `<file> :: <selector>: ` or `<selector>: `)"""
     head = msg.split(': ', 1)[0]
@@ -408,8 +430,13 @@ def check_property(prop, tier='quick'):
                 # Undecided (exit 2), never an alarm.
                 fshort = strip_mod(f['fn'])
                 lost = [h for h in ur.u.hints_dropped if h not in EXPECTED_DROPS and drop_fn(h) == fshort]
+                frec = [r for r in ur.u.records if r.kind == 'fn' and short_fn(r.selector) == fshort]
+                newc = new_constructs(ur, frec[0]) if len(frec) == 1 else []
                 if lost:
                     undecided.append('%s::%s failed %s, but a proof aid of that function lost its anchor on this tree (%s): not a verdict' % (ur.unit, fshort, f['obligation'], lost[0][:200]))
+                elif newc:
+                    # the function now uses something the verifier knows nothing about: the failed obligation may be the missing specification
+                    undecided.append('%s::%s failed %s, but its text now contains %s: the verifier has no semantics for it, not a verdict' % (ur.unit, fshort, f['obligation'], '; '.join(newc)[:300]))
                 else:
                     violations.append(f)
         # samples
